@@ -28,7 +28,8 @@ PRE_TOKENS = [
     ["--min=3"], ["--strategy=bogus"], ["--bogus"], ["--max=x"], ["--min"], ["-c", "-l"], ["--cut-before=]"], ["--with-experimental-move"],
 ]
 TAIL_TOKENS = ["-c", "-j", "--char", "--strategy=check-only", "--strategy", "minimize-around", "--min", "4", "--max=2", "--testcase", "x.txt",
-               "--", "-h", "--help", "-v", "--tempdir=zz", "arg", "", "a b", "-5", "--repeat=never", "--chunk-size=3", "-x", "--unknown=1"]
+               "--", "-h", "--help", "-v", "--tempdir=zz", "arg", "", "a b", "-5", "--repeat=never", "--chunk-size=3", "-x", "--unknown=1",
+               "@args.rsp", "@missing.rsp", "+x", "/c", "@"]
 AMBIGUOUS = ["--m", "--c", "--t", "--re", "--s"]
 NAMES = ["c17t.py", "c17t", "./c17t.py", "crashes", "outputs"]
 
@@ -40,6 +41,7 @@ def setup_dir():
     (d / "tc.txt").write_bytes(b"a\nb\n")
     (d / "other.txt").write_bytes(b"c\nd\n")
     (d / "x.txt").write_bytes(b"e\n")
+    (d / "args.rsp").write_text("-c\n--strategy=check-only\nother.txt\n")   # a response file of the TEST's tool, not Lithium's
     return d
 
 
@@ -214,6 +216,10 @@ def grid(ctx, n_random, do_model=True):
     try:
         # every single pre group x a few names x a fixed hostile tail
         hostile = ["-c", "--strategy=check-only", "--min", "4", "--testcase", "x.txt", "--char", "--", "-h"]
+        for name in NAMES[:2]:
+            for t in (["@args.rsp"], ["@missing.rsp", "-c"], ["+x", "/c", "@"]):
+                one(ctx, [], name, t, do_model)
+                one(ctx, [["-c"]], name, t, do_model)
         for g in [[]] + [[x] for x in PRE_TOKENS]:
             for name in NAMES[:3]:
                 one(ctx, g, name, hostile, do_model)
